@@ -515,6 +515,12 @@ def uri_state_machine(R, P):
             if nm == "ERROR":
                 okr = any(x.blk == s_.blk or ev_dominates(f, x, s_, dom) or s_ in RU.reach_from(f, x) or x in RU.reach_from(f, s_) for x in f.calls("aws_raise_error"))
                 near = [x for x in f.calls("aws_raise_error") if x.blk == s_.blk]
+                if not near:
+                    # ... or on every path through this store a raise has happened before it or happens after it (several
+                    # failing steps sharing one `state = ERROR` store; a helper that raises and returns the failure)
+                    from sa.cfg import Typestate as _TS
+                    ts_ = _TS(f, "none", lambda ev, z, s_=s_: "raised" if (ev.kind == "call" and ev.node.get("callee") == "aws_raise_error") else ("pending" if (ev is s_ and z != "raised") else z))
+                    near = ["every-path"] if "pending" not in ts_.exit_states else []
                 R.check(bool(near), "ERRCHAN", "uri:%s:error-state-raises" % name, where(f, s_), "ERROR is set together with aws_raise_error", "state ERROR is set without registering an error code")
     d = P.fn("s_init_from_uri_str")
     if d is not None:
